@@ -209,6 +209,18 @@ def gen_cases(rng, tier):
                       "kws": [{"fc": fc, "vdneff": vd, "kL": kL}, {"fc": fc, "vdneff": vd, "L": L}, {"fc": fc, "vdneff": vd, "N": N},
                               {"landa_D": lam_d, "vdneff": vd, "kL": kL}, {"landa_D": lam_d, "vdneff": vd, "L": L},
                               {"landa_D": lam_d, "vdneff": vd, "N": N}]})
+    # the longest inputs of the statement (2^12 samples) with LONG gratings (fine spectral fringes: every bin matters),
+    # uniform and unchirped so that ALL bins are judged by the closed form
+    longs = [(8, 25e9, 1e-5, 8.0), (8, 25e9, 3e-5, 2.5), (16, 10e9, 1e-4, 8.0)]
+    if tier != "quick":
+        longs += [(rng.choice([(8, 25e9), (16, 10e9), (8, 50e9)])) + (10 ** rng.uniform(-5, -4.5), rng.uniform(2.0, 8.0)) for _ in range(12)]
+    for sps, R, vd, kL in longs:
+        c = _design(rng, tier, rng.choice(["ld-vdneff", "fc-vdneff"]), "kL")
+        fs = sps * R
+        mm = rng.choice([0, 0, rng.randint(-200, 200)])
+        c.update(n=4096, sps=sps, R=R, ongrid=True, m=mm, F=0.0, v=1.0, apo="uniform", filtfilt=False, npol=1,
+                 kw=_kwargs(c["route"], "kL", _f0() + mm * fs / 4096, kL, vd, 1.0))
+        cases.append(c)
     # the same grating and input length under a sequence of sampling rates inside ONE process (the response is a function
     # of the grating and of the frequency grid in force, not of what was computed before); uniform profile, unchirped,
     # vdneff route, so every step is checked against the closed form for the rate in force
@@ -393,24 +405,27 @@ def run_impl(case):
                        inp=_rows(x.signal), out=_rows(y.signal), H=_cl(H), in_unchanged=bool(np.array_equal(x.signal, a)),
                        finite=bool(np.all(np.isfinite(H)) and np.all(np.isfinite(y.signal))),
                        t_span=[float(v) for v in k.get("t_span", call["a"][0] if call["a"] else [])],
-                       y0_ok=bool(np.array_equal(np.asarray(k.get("y0")), np.concatenate([np.ones(n), np.zeros(n)]).astype(complex))),
+                       y0_ok=bool(np.asarray(k.get("y0")).shape == (2 * n,) and
+                                  np.array_equal(np.asarray(k.get("y0")), np.concatenate([np.ones(n), np.zeros(n)]).astype(complex))),
                        method=str(k.get("method")), vectorized=bool(k.get("vectorized")), nfev=call["nfev"], solver_ok=call["ok"],
                        delta=[float(v) for v in np.asarray(args[0]).ravel()], s=[float(v) for v in np.asarray(args[1]).ravel()],
                        k=[float(v) for v in np.asarray(args[2]).ravel()], F_arg=float(args[3]), apo_none=args[4] is None,
-                       R_end=_cl(call["y_end"][:n]), S_end=_cl(call["y_end"][n:]),
+                       R_end=_cl(call["y_end"][:len(call["y_end"]) // 2]), S_end=_cl(call["y_end"][len(call["y_end"]) // 2:]),
                        tau=[float(v) for v in spy.tau[-1]] if spy.tau else None, tau_calls=len(spy.tau))
             # the captured right-hand side, evaluated from outside at random points
             r = np.random.default_rng(case["seed"] ^ 0x5A5A)
             probes = []
+            nn = int(np.asarray(args[0]).size)      # number of frequencies the solver integrates (the model says: n)
+            res["n_solver"] = nn
             for z in case["zs"]:
-                yv = (r.normal(size=(2 * n, 1)) + 1j * r.normal(size=(2 * n, 1))) * 10 ** r.uniform(-1, 1)
+                yv = (r.normal(size=(2 * nn, 1)) + 1j * r.normal(size=(2 * nn, 1))) * 10 ** r.uniform(-1, 1)
                 with time_limit(20):
                     d = call["fun"](float(z), yv, *args)
                 dR, dS = np.asarray(d[0]).ravel(), np.asarray(d[1]).ravel()
                 p = None
                 if args[4] is not None:
                     p = float(args[4](float(z)))
-                probes.append({"z": float(z), "R": _cl(yv[:n]), "S": _cl(yv[n:]), "dR": _cl(dR), "dS": _cl(dS), "p": p})
+                probes.append({"z": float(z), "R": _cl(yv[:nn]), "S": _cl(yv[nn:]), "dR": _cl(dR), "dS": _cl(dS), "p": p})
             res["probes"] = probes
     except Timeout as e:
         res.update(status="timeout", detail=str(e))
@@ -506,6 +521,8 @@ def compare(case, res, reqs, replies):
     n = case["n"]
     if res.get("ncalls") != 1:
         return [f"scipy.integrate.solve_ivp was called {res.get('ncalls')} times through opticomlib.devices (model: exactly once per FBG call)"]
+    if res.get("n_solver") != n:
+        out.append(f"the solver integrates {res.get('n_solver')} frequencies, the model one per sample ({n})")
     it = iter(replies)
     rep = next(it)
     if not rep.startswith("ok "):
